@@ -246,6 +246,13 @@ class R1Synth(object):
             for rn in self.requested:
                 self.participate(rn)
             for fn in self.field_names:
+                # a line can only be asked for by name if its form instance is among the requested ones (nothing else is
+                # known to the solver at that point): anything else is a malformed request
+                if fn.count('.') != 1 or fn.split('.')[0] not in res.forms:
+                    raise Abort('bad-name', fn)
+                req_, opt_, _ = self.lines[split_inst(fn.split('.')[0])[0]]
+                if fn.split('.')[1] not in req_ and fn.split('.')[1] not in opt_:
+                    raise Abort('bad-name', fn)
                 res.demanded.add(fn)
         except Abort as a:
             res.aborts['<request>'] = (a.kind, a.detail)
